@@ -10,6 +10,8 @@ import (
 	"os"
 	"os/exec"
 	"path/filepath"
+	"runtime"
+	"runtime/debug"
 	"sort"
 	"strings"
 	"sync/atomic"
@@ -99,6 +101,22 @@ func lockerChild() {
 				continue
 			}
 			out.Encode(lockerAck{OK: true, N: len(held)})
+		case "gc":
+			// Run the garbage collector until everything unreachable at this point has been
+			// finalized: finalizers run in queue order on one goroutine, so once a sentinel
+			// allocated (and dropped) now has been finalized in each of three successive
+			// rounds, every finalizer queued by an earlier cycle (e.g. the one closing an
+			// unreachable *os.File) has run. No sleeps: loop on runtime.GC.
+			ok := true
+			for round := 0; round < 3 && ok; round++ {
+				ok = flushFinalizers()
+			}
+			debug.FreeOSMemory()
+			if !ok {
+				out.Encode(lockerAck{OK: false, Err: "harness: sentinel finalizer did not run", N: len(held)})
+				continue
+			}
+			out.Encode(lockerAck{OK: true, N: len(held)})
 		case "ping":
 			out.Encode(lockerAck{OK: true, N: len(held)})
 		case "exit":
@@ -107,6 +125,30 @@ func lockerChild() {
 			out.Encode(lockerAck{OK: false, Err: "harness: unknown command"})
 		}
 	}
+}
+
+// flushFinalizers allocates a sentinel with a finalizer, drops it and collects
+// until that finalizer has run.
+func flushFinalizers() bool {
+	type sentinel struct {
+		p   *int
+		pad [64]byte
+	}
+	done := make(chan struct{})
+	func() {
+		s := &sentinel{}
+		runtime.SetFinalizer(s, func(*sentinel) { close(done) })
+	}()
+	for i := 0; i < 1000; i++ {
+		runtime.GC()
+		select {
+		case <-done:
+			return true
+		default:
+			runtime.Gosched()
+		}
+	}
+	return false
 }
 
 // ---------------------------------------------------------------------------
@@ -123,6 +165,10 @@ const (
 	// opRace: every live process without a Lock object attempts to acquire at the same
 	// instant (Proc is -1). The kernel picks the winner; the model follows the observation.
 	opRace = "race"
+	// opGC: process Proc runs its garbage collector to completion (finalizers included).
+	// A no-op on lock ownership in the model: "At any moment at most one process holds the
+	// daemon lock" and a holder that neither released nor terminated keeps it.
+	opGC = "gc"
 )
 
 var lockOpKinds = []string{opAcquire, opRelease, opReleaseOld, opKill, opExit, opRespawn}
@@ -509,6 +555,14 @@ func runLockPath(n, maxObjects int, path []lockOp) (run lockRun, err error) {
 				m = before
 				step.Model = m.key() + " (re-acquire by owner refused)"
 			}
+		case opGC:
+			ack, err := w.command(op.Proc, "gc")
+			if err != nil {
+				return run, err
+			}
+			if !ack.OK {
+				return run, &infraError{ack.Err}
+			}
 		case opRelease, opReleaseOld:
 			ack, err := w.command(op.Proc, op.Kind)
 			if err != nil {
@@ -704,8 +758,8 @@ func TestC28(t *testing.T) {
 		universes = []universe{{3, 2, 0, false}, {4, 1, 0, false}, {3, 1, 4, true}, {2, 2, 4, true}}
 	}
 	r.Rule("reference model (alive set, un-released Lock objects per process <= 2, POSIX owner) explored by BFS to closure over ops " +
-		"{acquire,release,releaseold,kill,exit,respawn}_i plus race_all (all idle live processes attempt at the same instant; exactly one must win iff the lock is free); EVERY model transition (state x enabled op) is executed on fresh real processes " +
-		"(shortest path to the state, then the op) calling daemon.AcquireLock/Release; after every op the parent reads the kernel's owner with F_GETLK. " +
+		"{acquire,release,releaseold,kill,exit,respawn}_i (thorough: also gc_i, a full garbage collection with finalizers in process i) plus race_all (all idle live processes attempt at the same instant; exactly one must win iff the lock is free); EVERY model transition (state x enabled op) is executed on fresh real processes " +
+		"(shortest path to the state, then the op) calling daemon.AcquireLock/Release; plus a scripted family the state abstraction collapses: for every ordered (i,j,k) and every way j goes away {release,kill,exit}: acquire_j, acquire_i refused, [gc_i], away_j, acquire_i, gc_i, acquire_k refused, j refused, release_i, acquire_k;  after every op the parent reads the kernel's owner with F_GETLK. " +
 		"Non-trivial = the executed history contains a race, or a successful acquire followed by a later op other than respawn (contending acquire, release, death); distinct by op sequence")
 	r.Assume("Linux POSIX record locks on a local filesystem (tmpfs/ext4 under $TMPDIR); NFS and Windows LockFileEx are not exercised",
 		"process scheduling is serialised by the parent (one command in flight) except in race_all, where the racers spin to a common wall-clock instant and the kernel arbitrates; which racer wins is not controlled, only that exactly one does",
@@ -785,7 +839,60 @@ func TestC28(t *testing.T) {
 		atomic.AddInt64(&validated, 1)
 	}
 
-	for _, u := range universes {
+	// Scripted family (histories the state abstraction collapses: the model state "i holds"
+	// is reached by acquire_i alone, but a process that was REFUSED before it acquired has
+	// made an extra real AcquireLock call whose leftovers a later garbage collection may
+	// release). For every ordered (i, j, k) and every way the first holder goes away:
+	//   acquire_j ok, acquire_i refused, [gc_i,] away_j, acquire_i ok, gc_i, acquire_k refused,
+	//   j (respawned if dead) refused, release_i, acquire_k ok
+	// with the kernel owner compared to the model after every op (after gc_i it must still be i).
+	scripted := func() {
+		const n = 3
+		var paths [][]lockOp
+		for i := 0; i < n; i++ {
+			for j := 0; j < n; j++ {
+				for k := 0; k < n; k++ {
+					if i == j || j == k || i == k {
+						continue
+					}
+					for _, away := range []string{opRelease, opKill, opExit} {
+						for _, earlyGC := range []bool{false, true} {
+							path := []lockOp{{opAcquire, j}, {opAcquire, i}}
+							if earlyGC {
+								path = append(path, lockOp{opGC, i})
+							}
+							path = append(path, lockOp{away, j}, lockOp{opAcquire, i}, lockOp{opGC, i}, lockOp{opAcquire, k})
+							if away != opRelease {
+								path = append(path, lockOp{opRespawn, j})
+							}
+							path = append(path, lockOp{opAcquire, j}, lockOp{opRelease, i}, lockOp{opAcquire, k})
+							paths = append(paths, path)
+						}
+					}
+				}
+			}
+		}
+		r.Sample(map[string]interface{}{"processes": n, "max_lock_objects": 1, "scripted": pathString(paths[2])})
+		var skipped int64
+		vr.Parallel(len(paths), func(x int) {
+			if time.Now().After(deadline) {
+				atomic.AddInt64(&skipped, 1)
+				return
+			}
+			l := r.Local()
+			defer l.Flush()
+			execute(n, 1, paths[x], l)
+			r.Add("scripted_histories", 1)
+		})
+		if skipped > 0 {
+			capped = append(capped, fmt.Sprintf("%d of %d scripted refused-retry-gc histories not executed", skipped, len(paths)))
+		}
+	}
+
+	for ui, u := range universes {
+		if ui == 1 {
+			scripted()
+		}
 		// BFS over the model to closure, remembering the shortest path to every state.
 		type node struct {
 			m    lockModel
@@ -820,6 +927,16 @@ func TestC28(t *testing.T) {
 		for _, nd := range all {
 			for _, op := range nd.m.enabled(u.maxObjects) {
 				jobs = append(jobs, job{append(append([]lockOp(nil), nd.path...), op), false})
+			}
+		}
+		// Thorough: a garbage collection in every live process of every state (no-op in the model).
+		if vr.Thorough() {
+			for _, nd := range all {
+				for i, p := range nd.m.P {
+					if p >= 0 {
+						jobs = append(jobs, job{append(append([]lockOp(nil), nd.path...), lockOp{opGC, i}), false})
+					}
+				}
 			}
 		}
 		// The outcome of a race is the kernel's choice: the same race transition is executed
